@@ -25,6 +25,8 @@ import (
 	"github.com/oasisprotocol/oasis-core/go/storage/mkvs/syncer"
 	"github.com/oasisprotocol/oasis-core/go/storage/mkvs/writelog"
 
+	"verifharness/mut"
+
 	// Register the remaining transaction methods the way the node binary does.
 	_ "github.com/oasisprotocol/oasis-core/go/consensus/api"
 	_ "github.com/oasisprotocol/oasis-core/go/keymanager/churp"
@@ -61,6 +63,7 @@ func cborTarget[T any](name, doc string, seeds []seed, wantDepth int, post func(
 			return outcome{digest: errDigest(err)}
 		}
 		o := outcome{depth: 1}
+		policy(in, &o)
 		m1, rt := roundTrip(&v)
 		o.rt = rt
 		info := ""
@@ -71,6 +74,67 @@ func cborTarget[T any](name, doc string, seeds []seed, wantDepth int, post func(
 		return o
 	}
 	return tg
+}
+
+// maxCBORNesting is the nesting bound of the decoder for untrusted input (the CBOR library's default
+// of 32 levels, which go/common/cbor relies on by not overriding it).
+const maxCBORNesting = 32
+
+// policy checks an input that the strict decoder ACCEPTED against the decode options for untrusted
+// input (go/common/cbor/cbor.go): no indefinite lengths, no tags, duplicate keys rejected, bounded
+// nesting. An accepted input showing one of these is the depth marker for a weakened decoder (the
+// blow-up itself is out of reach for inputs of at most 64 KiB).
+func policy(in []byte, o *outcome) {
+	f := mut.Scan(in)
+	switch {
+	case f.TooDeep || (f.Parsed && f.Depth > maxCBORNesting+2):
+		o.violSig, o.violMsg = "policy", fmt.Sprintf("strict CBOR decoder accepted an input nested more than %d levels deep (depth %d, beyond parser limit: %v)", maxCBORNesting, f.Depth, f.TooDeep)
+	case !f.Parsed:
+	case f.Indef:
+		o.violSig, o.violMsg = "policy", "strict CBOR decoder accepted an indefinite-length item"
+	case f.Tag:
+		o.violSig, o.violMsg = "policy", "strict CBOR decoder accepted a tagged item"
+	case f.DupTop:
+		o.violSig, o.violMsg = "policy", "strict CBOR decoder accepted a map with a duplicate key"
+	}
+}
+
+// withMapValue returns doc (a CBOR map) with the value of the text key replaced by repl (or the
+// pair appended when the key is absent; dup appends a second pair even when it is present).
+func withMapValue(doc []byte, key string, repl []byte, dup bool) []byte {
+	it, _, err := mut.Parse(doc)
+	if err != nil || it.Major != 5 || it.Indef {
+		panic("withMapValue: not a definite map")
+	}
+	k := append(mut.Head(3, uint64(len(key))), key...)
+	if !dup {
+		for i := 0; i+1 < len(it.Kids); i += 2 {
+			if bytes.Equal(doc[it.Kids[i].Start:it.Kids[i].End], k) {
+				v := it.Kids[i+1]
+				return append(append(append([]byte{}, doc[:v.Start]...), repl...), doc[v.End:]...)
+			}
+		}
+	}
+	out := append(mut.Head(5, uint64(len(it.Kids)/2+1)), doc[it.HeadEnd:it.End]...)
+	return append(append(out, k...), repl...)
+}
+
+// policyProbes are encodings that differ from a valid one only by a construct the decoder for
+// untrusted input must refuse; they sit in a position that is otherwise free-form (a RawMessage
+// or an `any`), so a weakened decoder accepts them.
+func policyProbes(doc []byte, rawKey string) []seed {
+	return []seed{
+		{"probe-nest-34-array", withMapValue(doc, rawKey, mut.Nest([]byte{0x00}, 34, 'a'), false)},
+		{"probe-nest-40-map", withMapValue(doc, rawKey, mut.Nest([]byte{0x00}, 40, 'm'), false)},
+		{"probe-nest-200-array", withMapValue(doc, rawKey, mut.Nest([]byte{0x00}, 200, 'a'), false)},
+		{"probe-nest-5000-array", withMapValue(doc, rawKey, mut.Nest([]byte{0x00}, 5000, 'a'), false)},
+		{"probe-indef-array", withMapValue(doc, rawKey, []byte{0x9f, 0x00, 0xff}, false)},
+		{"probe-indef-bstr", withMapValue(doc, rawKey, []byte{0x5f, 0x41, 0x00, 0xff}, false)},
+		{"probe-indef-map", withMapValue(doc, rawKey, []byte{0xbf, 0x00, 0x00, 0xff}, false)},
+		{"probe-tag", withMapValue(doc, rawKey, []byte{0xc1, 0x00}, false)},
+		{"probe-tag-bignum", withMapValue(doc, rawKey, []byte{0xc2, 0x41, 0x01}, false)},
+		{"probe-dup-top-key", withMapValue(doc, rawKey, []byte{0x00}, true)},
+	}
 }
 
 func seedsOf[T any](vals ...any) []seed {
@@ -207,9 +271,11 @@ func buildCborGroup() ([]*target, error) {
 		sig := must(signature.Sign(sgTx, transaction.SignatureContext, blob))
 		return cbor.Marshal(&transaction.SignedTransaction{Signed: signature.Signed{Blob: blob, Signature: *sig}})
 	}))
-	tgs = append(tgs, cborTarget("cbor-Transaction", "1 transaction decoded, 2 method body decoded", txSeeds, 2, func(v *transaction.Transaction, o *outcome) string {
+	txT := cborTarget("cbor-Transaction", "1 transaction decoded, 2 method body decoded", txSeeds, 2, func(v *transaction.Transaction, o *outcome) string {
 		return openBody(v, o, 2)
-	}))
+	})
+	txT.extra = policyProbes(txSeeds[0].data, "body")
+	tgs = append(tgs, txT)
 
 	// One target per method body type (decoded directly, plus the stateless validation).
 	body := func(name string, t *target) { tgs = append(tgs, t) }
